@@ -689,6 +689,8 @@ func init() {
 			bk.WInvoke = 5
 			bk.WDecorate = 1
 			bk.PFault, bk.PPanic = 20, 30
+			bk.PFaultKind = 35
+			bk.NoInvokeEK = true
 			bk.PAvail = 75
 			bk.PDeep, bk.PDeepFail, bk.PVisAfter, bk.PChain = 75, 35, 60, 60
 			bk.MaxOps = 26
